@@ -214,6 +214,16 @@ def _copy_mesh(M):
     return cp(M)
 
 
+def reorder_points(M, order):
+    """the same mesh with its points stored in the given order (order[k] = old index of the new point k)"""
+    inv = {o: k for k, o in enumerate(order)}
+    N = copy_mesh(M)
+    N["pts"] = [list(M["pts"][o]) for o in order]
+    N["pf"] = {name: [rows[o] for o in order] for name, rows in M["pf"].items()}
+    N["blocks"] = [[t, [[inv[c] for c in r] for r in rows]] for t, rows in M["blocks"]]
+    return N
+
+
 def relabel(rng, M, points=True, cells=True, blocks=True, how=None):
     """same mesh, different storage order; returns (new mesh, point perm: new k holds old perm[k], cell perms per type)"""
     N = copy_mesh(M)
@@ -337,10 +347,14 @@ def to_fieldcompare(M, extra_point=None, extra_cell=None):
     if M.get("ptype") == "float32" and all(float(np.float32(float(x))) == float(x) for p in M["pts"] for x in p):
         pts = with_memory_layout(pts.astype(np.float32))           # coordinates stored in single precision (exactly representable)
 
-    def conn_(rows):
+    ncorn = {"VERTEX": 1, "LINE": 2, "TRIANGLE": 3, "QUAD": 4, "PIXEL": 4, "TETRA": 4, "HEXAHEDRON": 8, "VOXEL": 8}
+
+    def conn_(t, rows):
+        if not rows:
+            return np.zeros((0, ncorn.get(t, 0)), dtype=np.int64)       # a cell type without cells
         c = connectivity_array(rows)
         return with_memory_layout(c) if c.dtype != object else c
-    mesh = Mesh(pts, [(CellType.from_name(t), conn_(rows)) for t, rows in M["blocks"]])
+    mesh = Mesh(pts, [(CellType.from_name(t), conn_(t, rows)) for t, rows in M["blocks"]])
     pd = {}
     for name, rows in M["pf"].items():
         isint = rows and isinstance(first_scalar(rows[0]), int)
